@@ -808,6 +808,56 @@ def work_float_lengths(task):
     return {"cov": cov, "viol": viol}
 
 
+class TransientSrc(Src):
+    """A live source whose k-th read fails once with an operating-system error (EINTR / EAGAIN / a time-out) without
+    consuming a frame, and which then goes on delivering."""
+
+    __slots__ = ("k", "exc", "calls")
+
+    def __init__(self, frames, k, exc):
+        super().__init__(frames)
+        self.k, self.exc, self.calls = k, exc, 0
+
+    def read(self):
+        self.calls += 1
+        if self.calls == self.k:
+            raise self.exc("transient failure of read #%d (injected)" % self.k)
+        return super().read()
+
+
+def work_transient(task):
+    """Whether a transient read failure is passed on to the caller or retried is the library's choice; if the run goes
+    on, the tokens are still judged by the property's oracle over the frames that were actually delivered."""
+    oracle, tuples, L = task
+    ST = _auditok()["ST"]
+    cov = {"evaluations": 0, "distinct_nontrivial": 0, "traces_validated_against_impl": 0, "transient_fault_runs": 0, "samples": []}
+    viol = []
+    for params in tuples:
+        for n in range(1, L + 1):
+            for bits in range(1 << n):
+                fr = frames_of(n, bits)
+                flags = flags_of(n, bits)
+                for k in range(1, n + 2):
+                    for exc in (InterruptedError, BlockingIOError, TimeoutError):
+                        cov["evaluations"] += 1
+                        cov["transient_fault_runs"] += 1
+                        try:
+                            toks = ST(_valid_tuple, *params).tokenize(TransientSrc(fr, k, exc))
+                        except OSError:
+                            continue  # passed on to the caller: nothing was delivered, nothing to judge
+                        except Exception as e_:
+                            toks, msg = [], "raised %r" % (e_,)
+                        else:
+                            msg = _oracle_msg(oracle, params, fr, flags, toks)
+                        cov["traces_validated_against_impl"] += 1
+                        cov["distinct_nontrivial"] += bool(toks)
+                        if msg and len(viol) < 3:
+                            viol.append(("transient-fault=%s read#%d params=%r stream=%s" % (exc.__name__, k, params, stream_str(n, bits)),
+                                         "%s at read #%d of %s, run continued: %s" % (exc.__name__, k, stream_str(n, bits), msg),
+                                         {"kind": "transient", "oracle": oracle, "params": list(params), "stream": stream_str(n, bits)}))
+    return {"cov": cov, "viol": viol}
+
+
 def work_model_selfcheck(task):
     """RefTok (incremental) against segment() (declarative) - model vs model."""
     tuples, L = task
@@ -974,6 +1024,10 @@ def run(prop, tier):
         ft = [t for t in tm.grid(3) if t[4] == 0]
         for c in _interleave(ft, common.NPROC):
             tasks.append(("floatlen", (c, 7 if tier == "quick" else 10)))
+    # a source whose k-th read fails once with an operating-system error and then goes on delivering
+    tt = [t for t in tm.grid(3) if (prop != "C04" or t[3] <= 1)][:: (3 if tier == "quick" else 1)]
+    for c in _interleave(tt, common.NPROC):
+        tasks.append(("transient", (prop, c, 5 if tier == "quick" else 7)))
     lt = [t for t in long_tuples() if prop != "C04" or t[3] <= 1]
     for c in _interleave(lt, common.NPROC * 2):
         tasks.append(("long", (prop, c, 300 if tier == "quick" else 1000)))
@@ -1005,6 +1059,8 @@ def _dispatch(t):
         return work_siblings(task)
     if kind == "floatlen":
         return work_float_lengths(task)
+    if kind == "transient":
+        return work_transient(task)
     return work_cover(task)
 
 
@@ -1012,6 +1068,9 @@ def replay(case):
     """Re-execute one recorded case; returns complaint or None."""
     if case["kind"] == "tokreuse":
         part = work_reuse((case["oracle"], [tuple(case["params"])], len(case["first"]), len(case["stream"])))
+        return part["viol"][0][1] if part["viol"] else None
+    if case["kind"] == "transient":
+        part = work_transient((case["oracle"], [tuple(case["params"])], len(case["stream"])))
         return part["viol"][0][1] if part["viol"] else None
     if case["kind"] == "floatlen":
         part = work_float_lengths(([tuple(case["params"])], len(case["stream"])))
